@@ -58,6 +58,11 @@ impl Cx {
             return;
         }
         self.stats.evaluations += 4;
+        {
+            let f = Fnv::new().bytes(b).b(mem::is_ascii(b) as u8).b(mem::is_utf8_latin1(b) as u8).b(mem::is_utf8_bidi(b) as u8).s(lb(mem::check_utf8_for_latin1_and_bidi(b)));
+            describe(|| format!("bytes {}", hex(b)));
+            self.stats.dig("cls/utf8", f);
+        }
         let valid = std::str::from_utf8(b).ok();
         let d_ascii = b.iter().all(|&x| x < 0x80);
         let d_latin1 = valid.map(|s| s.chars().all(|c| (c as u32) <= 0xFF)).unwrap_or(false);
@@ -112,6 +117,11 @@ impl Cx {
             return;
         }
         self.stats.evaluations += 4;
+        {
+            let f = Fnv::new().u16s(u).b(mem::is_basic_latin(u) as u8).b(mem::is_utf16_latin1(u) as u8).b(mem::is_utf16_bidi(u) as u8).s(lb(mem::check_utf16_for_latin1_and_bidi(u)));
+            describe(|| format!("units {}", hex16(u)));
+            self.stats.dig("cls/utf16", f);
+        }
         let d_basic = u.iter().all(|&x| x < 0x80);
         let d_latin1 = u.iter().all(|&x| x <= 0xFF);
         let d_bidi = u.iter().any(|&x| def_unit_bidi(x));
